@@ -13,7 +13,7 @@ use snafu::ResultExt;
 use super::formatter::Item;
 use crate::errors::ParseSnafu;
 use crate::{parser::Token, ParsingError};
-use crate::{Epoch, HifitimeError, MonthName, TimeScale, Unit, Weekday};
+use crate::{is_gregorian_valid, Epoch, HifitimeError, MonthName, TimeScale, Unit, Weekday};
 use core::fmt;
 use core::str::FromStr;
 
@@ -418,6 +418,33 @@ impl Format {
                     + (decomposed[4] as i64) * Unit::Minute
                     + (decomposed[5] as i64) * Unit::Second
                     + (decomposed[6] as i64) * Unit::Nanosecond;
+                // The day of year counts from 1 to the length of that year (a NaN fails the test).
+                let year = decomposed[0];
+                let days_in_year = if is_gregorian_valid(year, 2, 29, 0, 0, 0, 0) {
+                    366.0
+                } else {
+                    365.0
+                };
+                if !(days >= 1.0 && days < days_in_year + 1.0) {
+                    return Err(HifitimeError::InvalidGregorianDate);
+                }
+                // The time of day must be valid, and so must the month and the day when they are given as well.
+                let (month, day) = if decomposed[1] == 0 && decomposed[2] == 0 {
+                    (1, 1)
+                } else {
+                    (decomposed[1], decomposed[2])
+                };
+                if !is_gregorian_valid(
+                    year,
+                    month.try_into().unwrap(),
+                    day.try_into().unwrap(),
+                    decomposed[3].try_into().unwrap(),
+                    decomposed[4].try_into().unwrap(),
+                    decomposed[5].try_into().unwrap(),
+                    decomposed[6].try_into().unwrap(),
+                ) {
+                    return Err(HifitimeError::InvalidGregorianDate);
+                }
                 // Same as `Epoch::from_day_of_year`, but an unrepresentable year is an error, not a panic.
                 Epoch::maybe_from_gregorian(decomposed[0], 1, 1, 0, 0, 0, 0, ts)?
                     + (days - 1.0) * Unit::Day
